@@ -26,6 +26,10 @@ STMT_CONTEXTS = [
     "%s", "x0 = 0; %s y0 = 0;", "if (c) { %s }", "if (c) { x0 = 1; } else { %s }", "if (c) { } else if (d) { %s }",
     "while (c) { %s }", "for (c) { %s }", "foreach v in [1, 2] { %s }", "foreach i, v in m { %s }", "function q(a) { %s }",
     "switch (c) { case 1 { %s } }", "switch (c) { case 1 { } default { %s } }", "function q() { if (c) { foreach v in a { %s } } }",
+    # after a `return` in the same block: unreachable is not the same as untranslatable
+    "if (c) { return 1; %s }", "if (c) { x0 = 1; } else { return 2; %s }", "while (c) { return 1; %s }", "foreach v in [1, 2] { return v; %s }",
+    "function q(a) { return a; %s }", "switch (c) { case 1 { return 1; %s } }", "switch (c) { default { return 1; %s } }",
+    "function q() { if (c) { return 1; %s } return 2; }",
 ]
 EXPR_CONTEXTS = [
     "x = %s;", "return %s;", "if (%s) { x = 1; }", "while (%s) { x = 1; }", "x = c ? %s : 2;", "x = c ? 1 : %s;", "x = f(%s);",
